@@ -49,6 +49,7 @@ def gen_cases(tier: str):
     cases.append(c01.bundled_case("primordial", r))
     if tier == "thorough":
         cases.append(c01.bundled_case("deuterium", r, backends=["dense", "sparse"]))
+        cases.append(c01.bundled_case("cloud", r, backends=["dense", "sparse", "odeint"]))
     return cases
 
 
@@ -66,7 +67,10 @@ def run_case(case, ctx):
     obs, viol = Counter(), []
     backends = case.get("backends") or ["dense", "sparse", "cusparse", "odeint"]
     want = {"inject", "frozen_jac", "pass"}
-    if not case.get("cooling"):
+    if not case.get("cooling") and not case.get("rates_depend_on_y"):
+        # the Odeint functor recomputes k on every call: the stencil on it is "rate coefficients held fixed" only when k does
+        # not depend on y (gas-phase networks).  Grain models make k a function of the mantle abundances, so for those the
+        # Odeint matrix is compared with the analytic derivative only.
         want.add("numjac_unfrozen")
     out = S.run_backends(case, ctx, backends, want)
     usable = S.preamble(out, backends, viol, obs)
